@@ -27,6 +27,7 @@ type Ob struct {
 	Forbid bool   // every matching site is a violation (expected count zero)
 	MutOK []string // parameters (names from P) that the function may legitimately rebind before the sink
 	Why  string
+	Only  bool    // kind ret with Pat: every return of that status must have the shape (the function computes nothing else)
 	AltOf string  // obligations with the same AltOf are alternative spellings of one requirement: at least one of them must match a site
 }
 
@@ -256,6 +257,8 @@ func evalOb(c *Ctx, e *e1, ob Ob) (nMatched int) {
 	matched := 0
 	defer func() { nMatched = matched }()
 	ord := map[string]int{}
+	_ = ob.Max
+	var otherRets []*e1site // returns of the obligation's status that do not have the required shape
 	for _, s := range f.sites {
 		if s.kind != kind {
 			continue
@@ -285,6 +288,14 @@ func evalOb(c *Ctx, e *e1, ob Ob) (nMatched int) {
 				if !matchedX {
 					if os.Getenv("E1DEBUGOB") == ob.ID {
 						fmt.Fprintf(os.Stderr, "  %s: no match %s (chain %q) base=%v\n", ob.ID, st, s.chain, base)
+					}
+					if kind == "ret" && s.chain == "" {
+						for i := range s.states {
+							if ob.Kind == "ret any" || (ob.Kind == "ret ok" && s.ok[i]) || (ob.Kind == "ret fail" && !s.ok[i]) {
+								otherRets = append(otherRets, s)
+								break
+							}
+						}
 					}
 					continue
 				}
@@ -389,6 +400,23 @@ func evalOb(c *Ctx, e *e1, ob Ob) (nMatched int) {
 		} else {
 			c.R.Find(Finding{Rule: "vacuity", Func: fi.Name, Construct: ob.ID + " " + ob.Kind + " " + ob.Pat, Pos: c.P.Position(fi.Pos()),
 				Msg: fmt.Sprintf("rule %s expects at least %d sink(s) `%s %s` in %s but found %d: the sink moved or was renamed (an obligation that cannot be evaluated is not discharged)", ob.ID, min, ob.Kind, ob.Pat, fi.Name, matched), Ctl: fi.Ctl})
+		}
+	}
+	if kind == "ret" && ob.Pat != "" && ob.Only && !ob.Forbid && matched > 0 {
+		// "the function returns exactly this" (Only): a further return of the same status with another shape hands back a value
+		// the rule does not describe
+		for _, o := range otherRets {
+			excluded := false
+			for _, np := range nots {
+				if unify(np, o.term, base.clone()) {
+					excluded = true
+				}
+			}
+			if excluded {
+				continue
+			}
+			c.R.Find(Finding{Rule: ob.ID, Func: fi.Name, Construct: "another " + ob.Kind + " with a different shape: " + headOf(o.term), Pos: c.P.Position(o.pos),
+				Msg: fmt.Sprintf("rule %s describes the %s of %s as `%s`%s; `%s` is a further one with another shape", ob.ID, ob.Kind, fi.Name, ob.Pat, whySuffix(ob.Why), o.term), Ctl: fi.Ctl})
 		}
 	}
 	if ob.Max > 0 && matched > ob.Max {
